@@ -201,8 +201,18 @@ impl<'t, F: Mv> MvSession<'t, F> {
         self.slots[s] = None;
     }
     pub fn gc(&mut self) {
-        self.mref.with_manager_shared(|m| m.gc());
-        self.out.emit(json!({"ev":"mgc"}));
+        let (ret, ninner, nterm) = self
+            .mref
+            .with_manager_shared(|m| (m.gc(), m.num_inner_nodes(), m.num_terminals()));
+        self.out
+            .emit(json!({"ev":"mgc","ret":ret,"ninner":ninner,"nterm":nterm}));
+    }
+    /// drop every handle and collect: the manager must be empty again
+    pub fn finish(&mut self) {
+        for x in self.live() {
+            self.drop_h(x);
+        }
+        self.gc();
     }
     pub fn obs(&mut self) {
         let live = self.live();
@@ -414,6 +424,7 @@ pub fn tdd(args: &Args) {
         }
         if !s.dead {
             s.obs();
+            s.finish();
         }
     }
     out.finish();
@@ -535,6 +546,12 @@ pub fn mtbdd(args: &Args) {
             }
         }
         s.obs();
+        // constants only: handles dropped one by one, a collection after each
+        // (no inner node dies: the terminal sweep must run nevertheless)
+        for &c in &cs {
+            s.drop_h(c);
+            s.gc();
+        }
     }
     // functions over 1..2 variables with boundary values: pairs x operators,
     // different operators on the same operands with a 1-bucket cache
@@ -604,6 +621,7 @@ pub fn mtbdd(args: &Args) {
         }
         if !s.dead {
             s.obs();
+            s.finish();
         }
     }
     // 3..4 variables, random expressions over small and boundary constants
@@ -634,6 +652,7 @@ pub fn mtbdd(args: &Args) {
         }
         if !s.dead {
             s.obs();
+            s.finish();
         }
     }
     out.finish();
